@@ -356,7 +356,7 @@ class Sym(Interp):
         return val
 
     def _comp(self, n, env, ctx, kind):
-        if getattr(self, "desugar", False) and kind == "list" and "$outer" not in env and (len(n.generators) > 1 or any(g.ifs for g in n.generators)):
+        if getattr(self, "desugar", False) and kind == "list" and "$outer" not in env and (self.desugar == "all" or len(n.generators) > 1 or any(g.ifs for g in n.generators)):
             return self._comp_as_loops(n, env, ctx)
         e = {"$outer": env}
         for k, v in env.items():
@@ -790,6 +790,7 @@ class Sym(Interp):
         lid = ("loop", getattr(s, "lineno", 0) + getattr(s, "_frac", 0), home_qname(ctx))
         nfacts = len(self.facts)
         order = self._order
+        memo_before = set(self.memo)
         # pass 1: which names does the body rebind?
         saved_attrs = dict(ctx.self_obj.attrs) if isinstance(ctx.self_obj, ObjV) else None
         probe = dict(env)
@@ -818,6 +819,8 @@ class Sym(Interp):
         changed -= tnames
         del self.facts[nfacts:]
         self._order = order
+        for k_ in set(self.memo) - memo_before:
+            del self.memo[k_]             # helpers summarised during the probe are analysed again in pass 2, where their facts are kept
         if saved_attrs is not None:
             ctx.self_obj.attrs.clear()
             ctx.self_obj.attrs.update(saved_attrs)
